@@ -668,8 +668,21 @@ def report_failing_input(rep, what, case, sig):
     rep.fail("failing-input", what, case=case, sig=sig)
 
 
+def _lap(what, t=[None]):
+    """section timing on stderr when C05_TIMING is set"""
+    import sys
+    import time
+
+    now = time.time()
+    if os.environ.get("C05_TIMING") and t[0] is not None:
+        sys.stderr.write(f"C05-TIMING {what}: {now - t[0]:.1f}s\n")
+    t[0] = now
+
+
 def run(rep, tier):
+    _lap("start")
     b = common.build_property(PID, TRANSLATORS)
+    _lap("translators + coq build")
     common.standard_obligations(rep, PID, b)
     exe = None
     if b["make_ok"]:
@@ -680,6 +693,7 @@ def run(rep, tier):
     m = Model(exe) if exe else None
     r = common.rng(PID)
 
+    _lap("driver build")
     # ---------------- X1 from_result
     stdouts = gen_stdouts(tier, r)
     impl = impl_from_result(stdouts)
@@ -703,6 +717,7 @@ def run(rep, tier):
             if nbad <= 5:
                 rep.fail("broken-tie", f"from_result({s[:60]!r}): implementation {code}, model {mres[i]}", case={"tie": "from_result", "stdout": s, "implementation": code, "model": mres[i]})
 
+    _lap("X1")
     # ---------------- X2 _get_solver_output
     combos = [(sh, k) for sh in (0, 1) for k in ("sat_valid", "sat_invalid", "unsat", "unknown", "err", "exc_shutdown", "exc_value", "exc_oserror9")]
     got = impl_get_solver_output(combos)
@@ -717,6 +732,7 @@ def run(rep, tier):
         elif mres is not None and mres[i][0] != g:
             rep.fail("broken-tie", f"_get_solver_output(shutdown={sh}, future={k}): implementation {g}, model {mres[i][0]}", case={"tie": "get_solver_output", "shutdown": sh, "future": k})
 
+    _lap("X2")
     # ---------------- X2b the shared core list: check_unsat_cores, and what the callback appends to it
     hit_cases = [([], []), ([1], []), ([], [[]]), ([1, 2], [[]]), ([1, 2], [[1]]), ([1, 2], [[3]]), ([1, 2], [[1, 3]]), ([1, 2], [[2, 1]]), ([1, 2], [[3], [2]]),
                  ([1, 2, 3], [[1, 4], [3, 3]]), ([5], [[5, 5]]), ([1, 2], [[1, 2, 3]])]
@@ -728,8 +744,10 @@ def run(rep, tier):
     for i, ((ids, cores), g) in enumerate(zip(hit_cases, got)):
         rep.case({"tie": "check_unsat_cores", "ids": ids, "cores": cores}, nontrivial=bool(cores))
         spec = any(set(c0) <= set(ids) for c0 in cores)   # some cached core is contained in the query
-        if g != spec:
-            rep.fail("failing-input", f"check_unsat_cores(ids={ids}, cores={cores}) = {g}; a query is answered from the cache iff it contains a cached core ({spec})",
+        if g and not spec:
+            # answering `unsat` without the solver is only justified by a cached core that the query contains
+            # (the other direction -- a missed hit -- costs a solver call, not a verdict: model comparison only)
+            rep.fail("failing-input", f"check_unsat_cores(ids={ids}, cores={cores}) = True although the query contains none of the cached cores: it would be answered unsat without asking the solver",
                      case={"tie": "check_unsat_cores", "ids": ids, "cores": cores}, sig={"observable": "check_unsat_cores"})
         elif mres is not None and mres[i] != [1 if g else 0]:
             rep.fail("broken-tie", f"check_unsat_cores(ids={ids}, cores={cores}): implementation {g}, model {mres[i]}", case={"tie": "check_unsat_cores", "ids": ids, "cores": cores})
@@ -748,6 +766,7 @@ def run(rep, tier):
         elif mres is not None and mres[i] != [1 if g else 0]:
             rep.fail("broken-tie", f"callback append (shutdown={sh}, result={k}, core={core}): implementation appends {g}, model guard {mres[i]}", case={"tie": "callback-append", "shutdown": sh, "result": k, "core": core})
 
+    _lap("X2b")
     # ---------------- X3 solve_end_to_end / solve_low_level with a real subprocess
     jobs = []
     kinds3 = [k for k in ASYNC_REPLIES if k != "hang"]
@@ -799,11 +818,14 @@ def run(rep, tier):
             if not j["stuck"] and code == -1 and mres[i][0] != 4:
                 rep.fail("broken-tie", f"solve_end_to_end ({j}) raised; the model's callback records {mres[i][0]} instead of err", case={"tie": "solve_end_to_end", **j})
 
+    _lap("X3")
     # ---------------- X4 end to end
     cases = gen_cases(tier, r)
-    workers = 8 if tier == "quick" else 14
-    with ThreadPoolExecutor(workers) as ex:
-        results = list(ex.map(run_case, cases))
+    multi = gen_multi(tier, r)
+    workers = 12 if tier == "quick" else 14
+    with ThreadPoolExecutor(workers) as ex:   # X4 and X5 runs share one pool
+        results = list(ex.map(run_case, cases + multi))
+    results, mresults = results[:len(cases)], results[len(cases):]
     # truthful answers through the model (string level) and through the spec table
     ans_model = None
     if m:
@@ -943,10 +965,8 @@ def run(rep, tier):
         rep.fail("broken-tie", f"{n_inconclusive} of {len(cases)} end-to-end runs were inconclusive (solver processes starved); the tie did not really run", case={"inconclusive": n_inconclusive})
     rep.coverage["inconclusive_runs"] = n_inconclusive
 
+    _lap("X4")
     # ---------------- X5 several tests, setUp failure, nothing selected
-    multi = gen_multi(tier, r)
-    with ThreadPoolExecutor(workers) as ex:
-        mresults = list(ex.map(run_case, multi))
     for c, res in zip(multi, mresults):
         tests = c["tests"]
         if res.get("inconclusive"):
@@ -978,6 +998,7 @@ def run(rep, tier):
             if me != [res["rc"]]:
                 rep.fail("broken-tie", f"process exit code {res['rc']}, model main_exit {me} on {short}", case=short)
 
+    _lap("X5")
     rep.coverage["traces_validated_against_impl"] = len(cases) + len(multi) if m else 0
     rep.coverage["end_to_end_runs"] = len(cases) + len(multi)
     rep.coverage["retries"] = sum(1 for x in results + mresults if x.get("attempt"))
@@ -1011,4 +1032,8 @@ def replay(rep, body):
             print(res["log_tail"])
         elif case.get("tie") == "from_result":
             print("implementation:", impl_from_result([case["stdout"]]), "spec:", spec_first_line(case["stdout"]))
+        elif case.get("tie") == "check_unsat_cores":
+            print("implementation:", impl_check_unsat_cores([(case["ids"], case["cores"])]), "contains a cached core:", any(set(c0) <= set(case["ids"]) for c0 in case["cores"]))
+        elif case.get("tie") == "callback-append":
+            print("shared core list after the callback:", impl_callback_append([(case["shutdown"], case["result"], case["core"])]))
     return 0
